@@ -9,6 +9,7 @@ EXPLANATION = ("Decides on the MIR of the current tree: algebraic laws of Arc's 
                "decrement_strong_count are balanced. Equality of returned counts with a reference model per interleaving is not decided.")
 RULE_TEXT = "rule instances = dependence-table cells, edges, counter writers, front-end guards; non-trivial when matched to concrete MIR sites"
 LEVEL_NOTE = "necessary conditions only"
+WITNESSES = ['C11ArcGetMutNeedsMut']
 
 
 def run(ctx):
